@@ -22,6 +22,7 @@ Img(e) ==
     [] e.k = "marker" -> <<255, 6, 0, e.b>>
     [] e.k = "text"  -> <<255, e.ty, 0, e.b>>
     [] e.k = "loopstart" -> <<255, 225, 0, <<>>>>
+    [] e.k = "cc111"     -> <<255, 225, 0, <<>>>>      \* controller 111 is the loop start of RPG-Maker style files
     [] e.k = "loopend"   -> <<255, 226, 0, <<>>>>
     [] e.k = "sysex" -> <<240, 0, 0, <<240>> \o e.b>>
     [] OTHER -> <<0, 0, 0, <<>>>>
